@@ -13,13 +13,15 @@ namespace Receptor.Bridge
 error, then closes the destination and stops; `BridgeConns` runs one relay per direction and waits for both;
 a dial writes one zero byte, the listener reads and checks it — accepting it also when it arrives together
 with the end of the stream; `Conn.Close` closes the writing side of the stream only; `ReadFrom` copies the
-datagram's payload; a pending dial is cancelled by a notice about exactly its remote node and service. -/
+datagram's payload; both QUIC transports get a PacketConn that treats a momentarily missing next-hop
+connection as loss of the datagram; a pending dial is cancelled by a notice about exactly its remote node and service. -/
 theorem C03_facts :
     Receptor.Facts.bridge_loop = "read;err:shouldClose;n>0:write(buf[:n]),short->shouldClose;shouldClose:close(c2),return"
     ∧ Receptor.Facts.bridge_conns = "two-halves;wait-both"
     ∧ Receptor.Facts.stream_first_byte = "dial:write(0);accept:read(1);byte-with-eof:accepted;check(n==1,byte==0)"
     ∧ Receptor.Facts.stream_close = "Close:stream-write-side;CloseConnection:connection"
     ∧ Receptor.Facts.stream_readfrom_copy = "copy(p, m.Data)"
+    ∧ Receptor.Facts.stream_quic_adapter = "transports:2;lost-not-fatal:errors.Is(err, ErrNoConnectionToNextHop)"
     ∧ Receptor.Facts.unreach_dial_cancel = "msg.Problem == ProblemServiceUnknown && msg.ToNode == remoteAddr.node && msg.ToService == remoteAddr.service" := by
   decide +kernel
 
